@@ -2,6 +2,7 @@ package legs
 
 import (
 	"fmt"
+	"math/rand"
 	"reflect"
 	"strings"
 	"unicode"
@@ -296,6 +297,18 @@ func c03FindersCheck(c *core.Ctx, cases []engCase) []core.Outcome {
 	return outs
 }
 
+// fmGen: the engine generator with the \G origin moved off its default in half of the cases (the origin
+// only matters to the Start anchor bit, which the default origins — 0, or the end right-to-left — hide).
+func fmGen(g *engGen) func(rng *rand.Rand, i int) engCase {
+	return func(rng *rand.Rand, i int) engCase {
+		c := g.next(rng, i)
+		if rng.Intn(2) == 0 {
+			c.Start = rng.Intn(len(c.Text) + 1)
+		}
+		return c
+	}
+}
+
 // fmCorpus: hand-made cases for the paths the random stream reaches rarely.
 var fmCorpus = func() []engCase {
 	R := func(s string) []rune { return []rune(s) }
@@ -313,9 +326,107 @@ var fmCorpus = func() []engCase {
 		{Pattern: `\s+a(?:bc|x|b)c`, Text: R(" abc")},                 // landmark chain
 		{Pattern: `Ab`, Opts: ci, Text: R("xaBK")},
 		{Pattern: `ab`, Opts: rtl, Text: R("abxab"), Start: 5},
+		// every anchor bit in both directions, with the \G origin inside the input
+		{Pattern: `ab\G`, Opts: rtl, Text: R("ababab"), Start: 4},
+		{Pattern: `\w\G`, Opts: rtl, Text: R("ababab"), Start: 2},
+		{Pattern: `\Gab`, Text: R("ababab"), Start: 4},
+		{Pattern: `\G\w`, Text: R("ababab"), Start: 3},
+		{Pattern: `ab\A`, Opts: rtl, Text: R("abab"), Start: 4},
+		{Pattern: `\Aab`, Text: R("abab"), Start: 1},
+		{Pattern: `ab\z`, Opts: rtl, Text: R("abab\n"), Start: 5},
+		{Pattern: `\w\Z`, Opts: rtl, Text: R("abab\n"), Start: 5},
+		{Pattern: `\w\Z`, Opts: rtl, Text: R("abab\n\n"), Start: 6},
+		{Pattern: `\Z\n`, Text: R("ab\n")},
+		{Pattern: `\z`, Text: R("ab\n")},
 	}
 	for i := range cs {
 		cs[i].Source = "corpus"
 	}
 	return cs
 }()
+
+// fmDirected: small-scope exhaustive inputs for patterns chosen to reach every path and helper of the
+// finder: all inputs up to maxLen over a few runes taken from the pattern (plus one foreign rune), for
+// \G patterns with every origin.
+func fmDirected(maxLen int) []engCase {
+	rtl, ci := int32(regexp2.RightToLeft), int32(regexp2.IgnoreCase)
+	type d struct {
+		pat      string
+		opts     int32
+		cg       bool
+		alphabet string
+		origins  bool
+	}
+	ds := []d{
+		{`(?:abc|xyc|ac)`, 0, true, "abcxy", false},      // LeadingStrings_LeftToRight (skipping path)
+		{`(?:ab|xy)c`, ci, true, "aBcX", false},           // LeadingStrings_OrdinalIgnoreCase
+		{`[ab][cd]`, 0, true, "abcd", false},              // LeadingStrings (two-rune prefixes)
+		{`..ab`, 0, false, "abx", false},                  // FixedDistanceString
+		{`..a`, 0, false, "ab", false},                    // FixedDistanceChar
+		{`a+b`, 0, false, "abx", false},                   // FixedDistanceChar at distance 1
+		{`[ab]x..`, 0, false, "abx", false},               // FixedDistanceSets
+		{`.[ab]c`, 0, false, "abcx", false},               // FixedDistanceSets, primary at distance > 0
+		{`\d\w`, 0, false, "a1 _", false},                 // FixedDistanceSets over general sets
+		{`[ab]\w`, rtl, false, "ab1 ", false},             // LeadingSet_RightToLeft (first-character loop)
+		{`\d\w`, rtl, false, "a1 _", false},
+		{`\w+@x`, 0, false, "a@x ", false},                // LiteralAfterLoop, string literal
+		{`[a-c]+x`, 0, false, "ax ", false},               // LiteralAfterLoop, char literal
+		{`\w+@x`, ci, false, "a@X ", false},               // RequiredLandmarkChain
+		{`\s+a(?:bc|x|b)c`, 0, false, " abcx", false},     // RequiredLandmarkChain with alternatives
+		{`ab`, 0, false, "abx", false},                    // Boyer-Moore scan
+		{`ab`, rtl, false, "abx", false},
+		{`aab`, 0, false, "ab", false},
+		{`aba`, rtl, false, "ab", false},
+		{`Ab`, ci, false, "aAbB", false},                  // LeadingString_OrdinalIgnoreCase (ASCII folding)
+		{`\u00e9a`, ci, false, "\u00e9\u00c9aA", false},     // … through unicode.ToLower
+		{`k[ab]`, ci, false, "kK\u212aa", false},           // Kelvin sign
+		{`ab\z`, 0, false, "ab\n", false},                  // anchors …
+		{`ab\z`, ci, false, "aB\n", false},                 // TrailingAnchor_FixedLength_End helper
+		{`ab\Z`, 0, false, "ab\n", false},
+		{`ab\z`, rtl, false, "ab\n", false},
+		{`ab\Z`, rtl, false, "ab\n", false},
+		{`a+$`, rtl, false, "ab\n", false},
+		{`\w\Z`, rtl, false, "a\n", false},
+		{`\Z\n`, 0, false, "a\n", false},
+		{`\z`, 0, false, "a\n", false},
+		{`\Aab`, 0, false, "abx", false},
+		{`ab\A`, rtl, false, "abx", false},
+		{`\Gab`, 0, false, "ab", true},
+		{`\G\w`, 0, false, "a ", true},
+		{`ab\G`, rtl, false, "ab", true},
+		{`\w\G`, rtl, false, "a ", true},
+		{`\w*`, 0, false, "a ", false},                     // nothing to search for
+	}
+	var out []engCase
+	for _, x := range ds {
+		al := []rune(x.alphabet)
+		var texts [][]rune
+		var rec func(cur []rune)
+		rec = func(cur []rune) {
+			texts = append(texts, append([]rune(nil), cur...))
+			if len(cur) == maxLen {
+				return
+			}
+			for _, r := range al {
+				rec(append(cur, r))
+			}
+		}
+		rec(nil)
+		for _, t := range texts {
+			starts := []int{0}
+			if x.opts&rtl != 0 {
+				starts = []int{len(t)}
+			}
+			if x.origins {
+				starts = starts[:0]
+				for s := 0; s <= len(t); s++ {
+					starts = append(starts, s)
+				}
+			}
+			for _, s := range starts {
+				out = append(out, engCase{Pattern: x.pat, Opts: x.opts, CodeGen: x.cg, Text: t, Start: s, Source: "directed"})
+			}
+		}
+	}
+	return out
+}
